@@ -12,11 +12,15 @@
 3. monitors on the implementation: (a) the property itself -- the responses (status, ETag, Content-Type, body,
    listings) of run A and run B are identical; (b) C13_get stated on the server -- every GET / listing entry equals
    a cold derivation of the file's current bytes (so an externally replaced file is served with its new content
-   and ETag); (c) stale-entry probe at storage level, (d) the re-check under the cache lock.
+   and ETag); (c) stale-entry probe at storage level, (d) the re-check under the cache lock; (e) write faults (ENOSPC while
+   the entry is written) in histories and probes + the rule "entries are published by rename only" (audit hook);
+   (f) same size / same mtime_ns edits under hash keying; (g) the storage hook as external editor racing a GET.
+   Per pair: [encoding] stock in {utf-8, iso-8859-1, cp1252} with non-ASCII text.
 """
 import concurrent.futures
 import json
 import os
+import pickle
 import sys
 
 from vlib import core
@@ -131,6 +135,7 @@ def run(ctx):
                       signature=None)
 
     storage_level(ctx)
+    hook_schedule_probe(ctx)
 
     # a broken correspondence with no monitor failure: look for a failing input around the disagreeing pairs
     if bad and not ctx.violations:
@@ -182,8 +187,9 @@ def storage_level(ctx):
     from vlib import x_c13 as X
     import itertools
     X.install()
-    cases, probe_failed = [], []
+    cases, probe_failed, observations = [], [], {}
     n = 0
+    X.STOCK[0] = "utf-8"
     for stat, sub, lk in itertools.product((0, 1), (0, 1, 2), ("r", "w")):
         dic = X.Dict()
         cfg = dict(stat=stat, sub=sub, ver=0, skip=1)
@@ -231,14 +237,161 @@ def storage_level(ctx):
                 probe_failed.append("interference")
                 ctx.violation("C13 storage probe: re-check under the cache lock answers %r" % (r and r[:2],),
                               dict(stat=stat, sub=sub, lock=lk, entry="interference"))
+            # a write fault (disk full: nothing / half of the pickle reaches the file) while _get stores the entry after
+            # a miss: that request may fail, the next one must answer the file's derivation again
+            for fk in ("before", "partial"):
+                run.adv(("drop", sub, c, h))
+                run.fault = dict(where="get", kind=fk)
+                probe_get(run, "u/cal1", "a.ics", lk)
+                run.fault = None
+                r = probe_get(run, "u/cal1", "a.ics", lk)
+                n += 1
+                ctx.count("probe:fault-at-store-%s" % fk)
+                if r != cold and not probe_failed:
+                    probe_failed.append("fault")
+                    ctx.violation("C13 storage probe: after a failed write of the cache entry (ENOSPC, %s) _get answers %r instead of "
+                                  "the file's derivation" % (fk, r if isinstance(r, str) else (r and r[:2])),
+                                  dict(stat=stat, sub=sub, lock=lk, entry="write fault at _store_item_cache: " + fk,
+                                       note="drop the entry, make pickle.dump in cache.py raise ENOSPC during Collection._get, call _get again"))
+            # observation (outside the property, recorded in the evidence): entry files nobody writes
+            for name, blob in (("empty-file", b""), ("pickle-of-an-int", pickle.dumps(5))):
+                run.adv(("plant", sub, c, h, run.entry_code(blob), blob))
+                r = probe_get(run, "u/cal1", "a.ics", lk)
+                observations.setdefault(name, set()).add(r if isinstance(r, str) else ("served" if r == cold else "other"))
+            run.adv(("drop", sub, c, h))
+            # same size, same mtime_ns, other bytes (cp -p / rsync -t): new content when keyed by hash;
+            # in mtime+size mode the old entry is served (C13_stat_assumption_needed) -- compared with the model only
+            run.ext_edit("u/cal1", "VCALENDAR", "a.ics", X.ext_body("VCALENDAR", "a", 7), run.tick())
+            r0 = probe_get(run, "u/cal1", "a.ics", lk)
+            fp = os.path.join(run.root, "u/cal1/a.ics")
+            st_ = os.stat(fp)
+            data = X.ext_body("VCALENDAR", "a", 8, st_.st_size)
+            assert data is not None and len(data) == st_.st_size and data != open(fp, "rb").read()
+            run.ext_edit("u/cal1", "VCALENDAR", "a.ics", data, st_.st_mtime_ns, force=True)
+            r = probe_get(run, "u/cal1", "a.ics", lk)
+            n += 1
+            ctx.count("probe:same-stat-edit")
+            new_cold = X.cold_derive("VCALENDAR", data)
+            if stat == 0 and r != new_cold and not probe_failed:
+                probe_failed.append("same-stat")
+                ctx.violation("C13 storage probe: hash keying configured, item file replaced by other bytes of the same size with the "
+                              "same mtime_ns: _get answers %r instead of the new file's derivation" % (r and r[:2],),
+                              dict(stat=stat, sub=sub, lock=lk, entry="same size, same mtime_ns, other bytes",
+                                   note="GET a.ics; replace the file keeping size and os.utime(ns) stamps; GET again"))
+            if stat == 1:
+                ctx.count("probe:same-stat-edit-stale-as-modelled", int(r == r0))
             run.dump()
             cases.append((X.g_input((sorted(dic.table.items()), run.acts)), X.g_output(run.obs)))
         finally:
             run.close()
+    ctx.extra["observations_outside_the_property"] = {
+        k: "Collection._get with such an entry file under the name: " + ", ".join(sorted(v)) for k, v in observations.items()}
     bad = ctx.diff_cases("c13probe", HEADER, "run_script", cases, lambda s: s, lambda s: s, "eq_llN", shard=4)
     if bad is not None:
         ctx.obligation("correspondence:storage-probes", not bad, "" if not bad else "probe scripts %r differ" % bad)
     ctx.extra["storage_probes"] = n
+
+
+HOOK_SH = """#!/bin/sh
+# storage hook of the probe; cwd = filesystem_folder.  Armed once: replaces an item file like a sync script would.
+[ -e arm ] || exit 0
+rm -f arm
+# wait (at most 0.4 s) for a reader that has read the OLD bytes -- there can be none while the storage is locked
+i=0
+while [ ! -e flag ] && [ $i -lt 20 ]; do sleep 0.02; i=$((i+1)); done
+cp new_a.ics collection-root/u/cal1/a.ics
+touch hook_done
+"""
+
+
+def hook_schedule_probe(ctx):
+    """The external editor IS the storage hook (documented use: a script run after every change, while the storage is
+    locked exclusively).  mtime+size keying, two threads: a PUT of b.ics starts the hook, which replaces a.ics; a GET of
+    a.ics is started while the hook runs and is paused between reading the file and stat-ing it (get.py reads, then
+    stats).  While the hook runs under the exclusive lock the GET cannot have read the old bytes; afterwards the item
+    must be served as the cold derivation of the new file, identically with the cache kept and deleted."""
+    import shutil
+    import threading
+    import time
+    from vlib import impl, x_c13 as X
+    from radicale.storage.multifilesystem import get as get_mod
+    X.install()
+    X.CUR[0] = None
+    X.STOCK[0] = "utf-8"
+    for sub in (0, 1):
+        srv = impl.Server({"storage": {"use_mtime_and_size_for_item_cache": "True", "hook": "sh hook.sh",
+                                       "use_cache_subfolder_for_item": str(bool(sub))},
+                           "auth": {"type": "none"}, "rights": {"type": "authenticated"}})
+        folder = srv.folder
+        try:
+            with open(os.path.join(folder, "hook.sh"), "w") as f:
+                f.write(HOOK_SH)
+            new_bytes = X.ext_body("VCALENDAR", "a", 4) + b""
+            with open(os.path.join(folder, "new_a.ics"), "wb") as f:
+                f.write(new_bytes)
+            assert srv.request("MKCALENDAR", "/u/cal1/", login="u:")[0] == 201
+            assert srv.request("PUT", "/u/cal1/a.ics", data=X.item_body("VCALENDAR", "a", 1), login="u:")[0] == 201
+            assert srv.request("GET", "/u/cal1/a.ics", login="u:")[0] == 200
+            open(os.path.join(folder, "arm"), "w").close()
+            res = {}
+
+            def wait_for(pred, timeout):
+                end = time.monotonic() + timeout
+                while time.monotonic() < end and not pred():
+                    time.sleep(0.01)
+                return pred()
+
+            class Os:
+                armed = True
+
+                def __getattr__(self, n):
+                    return getattr(os, n)
+
+                def stat(self, path, *a, **k):
+                    if self.armed and os.path.basename(str(path)) == "a.ics":
+                        self.armed = False
+                        open(os.path.join(folder, "flag"), "w").close()     # "I have read the file"
+                        wait_for(lambda: os.path.exists(os.path.join(folder, "hook_done")), 3)
+                    return os.stat(path, *a, **k)
+
+            wt = threading.Thread(target=lambda: res.__setitem__(
+                "put", srv.request("PUT", "/u/cal1/b.ics", data=X.item_body("VCALENDAR", "b", 2), login="u:")))
+            wt.start()
+            started = wait_for(lambda: not os.path.exists(os.path.join(folder, "arm")), 10)
+            get_mod.os = Os()
+            try:
+                rt = threading.Thread(target=lambda: res.__setitem__("get", srv.request("GET", "/u/cal1/a.ics", login="u:")))
+                rt.start()
+                rt.join()
+                wt.join()
+            finally:
+                get_mod.os = os
+            ctx.obligation("hook-probe:ran", started and res.get("put", (0,))[0] == 201 and os.path.exists(os.path.join(folder, "hook_done")),
+                           "hook did not run: %r" % (res.get("put"),))
+            cold = X.cold_derive("VCALENDAR", open(os.path.join(folder, "collection-root/u/cal1/a.ics"), "rb").read())
+            kept = srv.request("GET", "/u/cal1/a.ics", login="u:")
+            for root, dirs, _files in os.walk(folder):
+                for dn in list(dirs):
+                    if dn in (".Radicale.cache", "collection-cache"):
+                        shutil.rmtree(os.path.join(root, dn), ignore_errors=True)
+                        dirs.remove(dn)
+            fresh = srv.request("GET", "/u/cal1/a.ics", login="u:")
+            ctx.count("probe:hook-edits-item-while-get-races")
+            ctx.case(("hook-probe", sub), nontrivial=True)
+
+            def view(r):
+                return (r[0], r[1].get("ETag"), r[2].decode("utf-8", "replace"))
+            if view(kept) != view(fresh) or cold is None or view(kept) != (200, cold[1], cold[2]):
+                ctx.violation("C13 hook probe: item file replaced by the storage hook while a GET of it was in progress "
+                              "(mtime+size keying): afterwards GET answers etag %s with the cache kept, %s with the cache deleted, "
+                              "cold derivation of the file %s" % (kept[1].get("ETag"), fresh[1].get("ETag"), cold and cold[1]),
+                              dict(scenario="hook replaces a.ics during PUT b.ics; GET a.ics paused between read and stat",
+                                   cache_subfolder=bool(sub), during=res.get("get", (None,))[0],
+                                   kept=view(kept)[:2], deleted=view(fresh)[:2], cold=cold and cold[1],
+                                   note="./check C13 re-runs this probe deterministically (checks/C13.py hook_schedule_probe)"))
+                break
+        finally:
+            srv.close()
 
 
 def probe_get(run, collpath, name, lk):
@@ -252,6 +405,8 @@ def probe_get(run, collpath, name, lk):
         run.tracing = True
         try:
             item = coll._get(name)
+        except Exception as e:
+            return "raised " + type(e).__name__
         finally:
             run.tracing = False
             run.interfere = None
